@@ -258,7 +258,44 @@ pub fn engine(rep: &mut Report, focus: &str, n: usize, seed: u64, thorough: bool
             }
         }
     }
+    if focus == "C13" {
+        c13_ascii_sweep(rep);
+    }
     rep.notes.push(format!("features seen: {:?}", feats_seen));
+}
+
+/// C13, exhaustive part: every pair (a, b) of ASCII bytes, for the case-sensitive and the two
+/// case-insensitive modes: a literal `a` against `b`, a one-element class, and a back-reference
+/// `(.)\\1` against "ab" — the ASCII entry points must agree with the UTF-8 ones.
+fn c13_ascii_sweep(rep: &mut Report) {
+    for flags in ["s", "is", "isu", "isv"] {
+        let br = compile("^(.)\\1$", flags, false).unwrap();
+        let brn = compile("^(.)\\1$", flags, true).unwrap();
+        for a in 0u32..128 {
+            let lit = compile(&format!("^\\x{:02x}$", a), flags, false).unwrap();
+            let cls = compile(&format!("^[\\x{:02x}]$", a), flags, false).unwrap();
+            let ncls = compile(&format!("^[^\\x{:02x}]$", a), flags, false).unwrap();
+            for b in 0u32..128 {
+                let hb = char::from_u32(b).unwrap().to_string();
+                let hab: String = [char::from_u32(a).unwrap(), char::from_u32(b).unwrap()].iter().collect();
+                rep.case(&format!("sweep {} {} {}", flags, a, b), a != b);
+                rep.count("ascii-sweep");
+                for (re, hay, name) in [(&lit, &hb, "literal"), (&cls, &hb, "class"), (&ncls, &hb, "negated class"), (&br, &hab, "backref"), (&brn, &hab, "backref (no_opt)")] {
+                    for (u, x) in [(Exec::Bt, Exec::BtAscii), (Exec::Pk, Exec::PkAscii)] {
+                        let r1 = fmt_matches(&find_all(re, u, hay, 0, 0).0);
+                        let r2 = fmt_matches(&find_all(re, x, hay, 0, 0).0);
+                        if r1 != r2 {
+                            rep.violation(
+                                "impl-vs-impl:C13",
+                                format!("{} {} under {:?}: pattern byte 0x{:02x}, haystack {:?}: utf8 [{}] vs ascii [{}]", u.name(), name, flags, a, hay, r1, r2),
+                                format!("F8CTX flags={} cps={:x}.{:x}", flags, a, b),
+                            );
+                        }
+                    }
+                }
+            }
+        }
+    }
 }
 
 // ------------------------------------------------------------------ C19
@@ -423,6 +460,50 @@ pub fn c12_classes(rep: &mut Report, n: usize, seed: u64, thorough: bool) {
                 format!("esfind {} {} {} 0", flags.to_token(), ast::ast_string(&node), ast::cps_hex(&h)),
                 if first.is_empty() { "none".into() } else { format!("m {}", first) },
             );
+        }
+    }
+}
+
+// ------------------------------------------------------------------ compiler tie (optimizer / start predicate / emitter / IR semantics models)
+
+/// For generated patterns: the real IR before and after optimization, the real start predicate,
+/// the real program and the real first match, as expectations for the Lean models of
+/// `optimizer.rs`, `startpredicate.rs`, `emit.rs` and for the IR semantics.
+pub fn compiler_tie(rep: &mut Report, n: usize, seed: u64, thorough: bool) {
+    let mut rng = Rng::new(seed);
+    let cfg = GenCfg { max_depth: if thorough { 4 } else { 3 }, ..GenCfg::default() };
+    let mut done = 0;
+    while done < n {
+        let Some(c) = gen_case(&mut rng, &cfg, rep, None) else { continue };
+        let cps: Vec<u32> = c.pat.chars().map(|ch| ch as u32).collect();
+        let fl = c.flags.to_token();
+        let fs = c.flags.to_string();
+        let ir0 = regress::verif::dump_ir_canon(cps.iter().copied(), make_flags(&fs, true)).unwrap().replace(' ', "~");
+        let ir1 = regress::verif::dump_ir_canon(cps.iter().copied(), make_flags(&fs, false)).unwrap().replace(' ', "~");
+        let sp = regress::verif::dump_start_predicate(cps.iter().copied(), make_flags(&fs, false)).unwrap();
+        rep.tie(format!("optimize {} {}", fl, ir0), format!("ok {}", ir1));
+        rep.tie(format!("startpred {} {}", fl, ir1), sp.clone());
+        rep.tie(format!("emit {} {}", fl, ir1), prog_token(&c.opt));
+        rep.tie(format!("emit {}O {}", if fl == "-" { "".to_string() } else { fl.clone() }, ir0), prog_token(&c.noopt));
+        rep.count(if ir0 != ir1 { "optimizer-changed-ir" } else { "optimizer-no-change" });
+        rep.count(&format!("startpred:{}", sp.split(' ').next().unwrap_or("")));
+        done += 4;
+        rep.case(&format!("/{}/{}", c.pat, fs), ir0 != ir1);
+        let hays = ast::haystacks(&c.node, c.flags, &mut rng, 3);
+        for h in hays.iter() {
+            let hay = ast::to_string(h);
+            let b = boundaries(&hay);
+            let start = *rng.pick(&b);
+            let r = run_exec(&c.opt, Exec::Bt, &hay, start, 1);
+            if r.text == "fuel" {
+                continue;
+            }
+            let first = r.text.split(' ').next().unwrap_or("").to_string();
+            let want = if first.is_empty() { "none".to_string() } else { format!("m {}", first) };
+            rep.tie(format!("semfind {} {} {} {}", fl, ir1, ast::bytes_hex(hay.as_bytes()), start), want.clone());
+            rep.tie(format!("semfind {} {} {} {}", fl, ir0, ast::bytes_hex(hay.as_bytes()), start), want);
+            done += 2;
+            rep.case(&format!("/{}/{} {:?} {}", c.pat, fs, hay, start), !first.is_empty());
         }
     }
 }
